@@ -154,11 +154,6 @@ theorem adTest_safe (e : Ext) (nval : Int) (bad : Nat → Bool) (h1 : nval ≤ e
   apply safe_of_wp (Q := fun _ => True)
   unfold adTest
   wp_run
-  refine wp_forLoop (fun _ _ => True) _ _ _ trivial ?_ ?_
-  · intro j s _ _ _
-    wp_run
-  · intro x _
-    cases x <;> wp_run
 
 theorem olsleverage_safe (e : Ext) (nval npreds : Int) (hp : 0 ≤ npreds)
     (h1 : npreds * nval ≤ e .predictors) (h2 : npreds * npreds ≤ e .tXXinv) (h3 : nval ≤ e .leverages)
@@ -179,13 +174,14 @@ theorem paretofront_safe (e : Ext) (nval ncol : Int) (dom : Nat → Nat → Bool
   unfold paretofront
   refine wp_bind (wp_forEach (fun i hi0 hi1 => ?_) (wp_pure trivial))
   have bi := mul_idx_bound hc hi0 (show i < nval by omega)
-  wp_run
+  wp_lin
   refine wp_forLoop (fun _ _ => True) _ _ _ trivial ?_ ?_
   · intro j s hj0 hj1 _
     have bj := mul_idx_bound hc hj0 (show j < nval by omega)
     wp_run
   · intro x _
     wp_run
+
 theorem crps_safe (e : Ext) (nval ncol useW : Int) (unsorted : Nat → Nat → Bool)
     (hc : 1 ≤ ncol) (h1 : nval ≤ e .obs) (h2 : ncol * nval ≤ e .sim)
     (h3 : useW = 1 → nval ≤ e .weights) (h4 : (ncol + 1) * 7 ≤ e .table) (h5 : 5 ≤ e .decompos)
